@@ -68,6 +68,11 @@ func (g *Gen) genFunc(fs *FuncSpec) {
 	req, ens, asg, ghosts, rename := g.clauses(fs)
 	st0 := &State{cells: map[*ssa.Alloc]T{}, heap: map[string]*HV{}}
 	g.alloc(st0)
+	// the goal skolems of the first two nesting depths exist from the start, so that every
+	// assumed universal fact (nested ones included) is instantiated at them
+	for _, n := range []string{"QK.Int.0", "QK.Int.1", "QK.Ref.0"} {
+		g.s.declNamed(n, "Int")
+	}
 	vars := map[string]CV{}
 	var args []T
 	for k, p := range fn.Params {
@@ -193,9 +198,14 @@ func (g *Gen) genFunc(fs *FuncSpec) {
 			ls := asgBy[h]
 			whole := false
 			var exc []string
+			idxBy := map[string][]string{}
 			for _, l := range ls {
 				if l.all || l.ref == "" {
 					whole = true
+				}
+				if l.idx != "" {
+					idxBy[l.ref] = append(idxBy[l.ref], l.idx)
+					continue
 				}
 				exc = append(exc, l.ref)
 			}
@@ -209,7 +219,24 @@ func (g *Gen) genFunc(fs *FuncSpec) {
 				for _, e := range exc {
 					conds = append(conds, not(eq("RK", e)))
 				}
-				goal = imp(and(conds...), eq(g.readHeap(r.st, h, "RK"), app("select", h0.term, "RK")))
+				now := g.readHeap(r.st, h, "RK")
+				eqWhole := eq(now, app("select", h0.term, "RK"))
+				if len(idxBy) > 0 {
+					// element-level locations: the backing array keeps every other element
+					g.s.declNamed("RK2", "Int")
+					var isIdxRef, perRef []string
+					for _, ref := range sortedKeys(idxBy) {
+						var ne []string
+						for _, ix := range idxBy[ref] {
+							ne = append(ne, not(eq("RK2", ix)))
+						}
+						isIdxRef = append(isIdxRef, eq("RK", ref))
+						perRef = append(perRef, imp(eq("RK", ref), imp(and(ne...), eq(app("select", now, "RK2"), app("select", app("select", h0.term, "RK"), "RK2")))))
+					}
+					goal = imp(and(conds...), ite(or(isIdxRef...), and(perRef...), eqWhole))
+				} else {
+					goal = imp(and(conds...), eqWhole)
+				}
 			} else {
 				goal = eq(g.hv(r.st, h).term, h0.term)
 			}
@@ -407,7 +434,16 @@ func (f *frame) invEnv(st *State, pc string, hyp bool, li *loopInfo) *Env {
 		for _, u := range li.spec.Uses {
 			// "use <int expr>" inside a loop block: an instantiation term for quantified invariants
 			if u.Op != "call" {
-				e.insts = append(e.insts, (&Env{g: g, st: st, old: g.entry, vars: vars, cells: f.cells, pc: pc, hyp: hyp}).tr(u, true).S)
+				v := (&Env{g: g, st: st, old: g.entry, vars: vars, cells: e.cells, pc: pc, hyp: hyp, frame: f}).tr(u, true)
+				if v.So == "Int" && v.Ty != nil && isRefType(v.Ty) {
+					// "use <object expr>": an object the universal facts about references are used at
+					g.addInstTerm("Ref", v.S)
+				} else {
+					e.insts = append(e.insts, v.S)
+					if v.So == "Int" {
+						g.addInstTerm("Int", v.S)
+					}
+				}
 			}
 		}
 	}
